@@ -197,7 +197,7 @@ fn forge_trailers(seq: &mut [Vec<u8>]) -> u32 {
 
 /// Feed the packet sequence; judge every delivery by the first sentence of the property.
 pub fn feed_and_judge(slots: usize, storage: usize, seq: &[Vec<u8>], st: &mut Stats) -> Result<(u32, u32), String> {
-    let mut dec = new_simple_dec(slots, 0, &vec![storage; slots + 2], TableManager::all());
+    let mut dec = new_simple_dec(slots, 0, &vec![storage; (slots + 2).min(8)], TableManager::all());
     let mut model = RefRx::new();
     let mut delivered = 0u32;
     let mut ends_with_open_train = 0u32;
@@ -308,7 +308,7 @@ fn check(c: &Case, st: &mut Stats) -> Result<(), String> {
     }
     let maxp = c.trains.iter().map(|t| t.pdu.len as i64).max().unwrap_or(0);
     let storage = (maxp + c.storage_delta as i64).max(0) as usize;
-    let (delivered, ends_open) = feed_and_judge(c.slots as usize, storage, &seq, st)?;
+    let (delivered, ends_open) = feed_and_judge(slots_of(c.slots), storage, &seq, st)?;
     st.class_if(delivered > 0, "delivered-some");
     st.class_if(delivered == 0, "delivered-none");
     st.class_if(c.faults.is_empty(), "no-fault");
@@ -324,7 +324,7 @@ fn check(c: &Case, st: &mut Stats) -> Result<(), String> {
 
 fn strategy(t: Tier) -> BoxedStrategy<Case> {
     let _ = t;
-    let train = (prop_oneof![4 => 0u8..4, 1 => any::<u8>()], lab_any_valid(), ptype_user(), (prop_oneof![4 => 2u32..80, 2 => 80u32..1500, 1 => 1500u32..9000], pdu_seed()), prop::collection::vec(prop_oneof![3 => 1u16..30, 1 => 30u16..1200], 1..4), any::<bool>())
+    let train = (prop_oneof![8 => 0u8..4, 2 => any::<u8>(), 1 => Just(255u8), 1 => Just(128u8)], lab_any_valid(), ptype_user(), (prop_oneof![4 => 2u32..80, 2 => 80u32..1500, 1 => 1500u32..9000], pdu_seed()), prop::collection::vec(prop_oneof![3 => 1u16..30, 1 => 30u16..1200], 1..4), any::<bool>())
         .prop_map(|(id, lab, ptype, (len, seed), cuts, via_encap)| TrainGen { id, lab, ptype, pdu: Pdu { len, seed }, cuts, via_encap: via_encap && lab != Lab::ReUse });
     let fault = prop_oneof![
         2 => any::<u16>().prop_map(Fault::Drop),
@@ -338,7 +338,7 @@ fn strategy(t: Tier) -> BoxedStrategy<Case> {
         2 => (any::<u16>(), any::<u32>()).prop_map(|(pkt, v)| Fault::SetCrc { pkt, v }),
         1 => (any::<u16>(), 0u16..4096).prop_map(|(pkt, v)| Fault::SetGseLen { pkt, v }),
     ];
-    bx((1u8..=4, prop_oneof![3 => Just(0i16), 1 => 1i16..100, 1 => -40i16..0], prop::collection::vec(train, 1..=3), prop::collection::vec(0u8..3, 0..16), prop::collection::vec(fault, 0..=2), prop_oneof![2 => Just(false), 1 => Just(true)])
+    bx((prop_oneof![5 => 1u8..=4, 1 => Just(0u8)], prop_oneof![3 => Just(0i16), 1 => 1i16..100, 1 => -40i16..0], prop::collection::vec(train, 1..=3), prop::collection::vec(0u8..3, 0..16), prop::collection::vec(fault, 0..=2), prop_oneof![2 => Just(false), 1 => Just(true)])
         .prop_map(|(slots, storage_delta, trains, merge, faults, forge_crc)| Case { slots, storage_delta, trains, merge, faults, forge_crc }))
 }
 
